@@ -269,32 +269,36 @@ Lemma snap_grid_none_spec x0 x1 rs tol :
     let a := Qabs rs in
     (1 <= n)%Z /\
     x1 - tol * a <= x0 + inject_Z n * a /\
+    x1 - (1 # 2) * a <= x0 + inject_Z n * a /\
     (x0 + inject_Z n * a < x1 + a \/ n = 1%Z).
 Proof.
   intros Hr Hx Ht. unfold snap_grid.
   assert (Ha : 0 < Qabs rs).
   { destruct (Qabs_cases rs) as [[H1 H2]|[H1 H2]]; rewrite H2; [|lra].
     destruct (Qlt_le_dec 0 rs); [lra|exfalso; apply Hr; lra]. }
-  assert (G : forall a, 0 < a -> forall c : Z, (x1 - x0) / a - tol <= inject_Z c -> inject_Z c < (x1 - x0) / a + 1 ->
+  assert (G : forall a, 0 < a -> forall c : Z, (x1 - x0) / a - tol <= inject_Z c ->
+              (x1 - x0) / a - (1 # 2) <= inject_Z c -> inject_Z c < (x1 - x0) / a + 1 ->
               let n := Z.max 1 c in
-              (1 <= n)%Z /\ x1 - tol * a <= x0 + inject_Z n * a /\ (x0 + inject_Z n * a < x1 + a \/ n = 1%Z)).
-  { intros a Pa c C1 C3. cbv zeta.
+              (1 <= n)%Z /\ x1 - tol * a <= x0 + inject_Z n * a /\ x1 - (1 # 2) * a <= x0 + inject_Z n * a /\
+              (x0 + inject_Z n * a < x1 + a \/ n = 1%Z)).
+  { intros a Pa c C1 C2 C3. cbv zeta.
     assert (Q1 : x1 - x0 == ((x1 - x0) / a) * a) by (field; lra).
     set (y := (x1 - x0) / a) in *. set (C := inject_Z c) in *.
     assert (T3 : (y - tol) * a <= C * a) by (apply Qmult_le_compat_r; lra).
+    assert (T4 : (y - (1 # 2)) * a <= C * a) by (apply Qmult_le_compat_r; lra).
     assert (T5 : C * a < (y + 1) * a) by (apply Qmult_lt_compat_r; lra).
     split; [lia|].
     destruct (Z.max_spec 1 c) as [[L E]|[L E]]; rewrite E.
-    - fold C. split; [lra|left; lra].
+    - fold C. split; [lra|]. split; [lra|left; lra].
     - assert (C <= 1) as A by (unfold C; rewrite <- inj1, <- Zle_Qle; lia).
       assert (T6 : C * a <= 1 * a) by (apply Qmult_le_compat_r; lra).
-      rewrite inj1. split; [lra|right; reflexivity]. }
+      rewrite inj1. split; [lra|]. split; [lra|right; reflexivity]. }
   destruct (Qltb 0 rs) eqn:E.
   - apply Qltb_true in E.
     destruct (ceil_maybe_int ((x1 - x0) / rs) tol Ht) as (c & Ec & C1 & C2 & C3).
     rewrite Ec. exists (Z.max 1 c). split; [reflexivity|].
     assert (Ea : Qabs rs == rs) by (apply Qabs_pos; lra).
-    cbv zeta. rewrite Ea. apply (G rs E c C1 C3).
+    cbv zeta. rewrite Ea. apply (G rs E c C1 C2 C3).
   - apply Qltb_false in E.
     assert (Hn : rs < 0) by (destruct (Qlt_le_dec rs 0); [assumption|exfalso; apply Hr; lra]).
     assert (E0 : Qeq_bool rs 0 = false) by (apply Qeq_bool_false; exact Hr).
@@ -302,5 +306,111 @@ Proof.
     destruct (ceil_maybe_int ((x1 - x0) / - rs) tol Ht) as (c & Ec & C1 & C2 & C3).
     rewrite Ec. exists (Z.max c 1). split; [reflexivity|].
     assert (Ea : Qabs rs == - rs) by (apply Qabs_neg; lra).
-    cbv zeta. rewrite Ea. rewrite Z.max_comm. apply (G (- rs)); [lra|exact C1|exact C3].
+    cbv zeta. rewrite Ea. rewrite Z.max_comm. apply (G (- rs)); [lra|exact C1|exact C2|exact C3].
+Qed.
+
+(** * One axis, statement form used by the 2-d results *)
+
+Lemma abs_pos_of_nonzero rs : ~ rs == 0 -> 0 < Qabs rs.
+Proof.
+  intros Hr. destruct (Qabs_cases rs) as [[H1 H2]|[H1 H2]]; rewrite H2; [|lra].
+  destruct (Qlt_le_dec 0 rs); [lra|exfalso; apply Hr; lra].
+Qed.
+
+Lemma snap_grid_ok_inv x0 x1 rs off tol r :
+  snap_grid x0 x1 rs off tol = Ok r -> ~ rs == 0 /\ off_ok off.
+Proof.
+  unfold snap_grid. destruct off as [o|].
+  - destruct (Qle_bool 0 o && Qltb o 1) eqn:E; cbn [guard bind]; [|discriminate].
+    apply andb_true_iff in E. destruct E as [E1 E2]. apply Qle_bool_true in E1. apply Qltb_true in E2.
+    intros H. split; [|simpl; split; assumption].
+    unfold snap_edge in H.
+    destruct (Qle_bool (x0 - o * Qabs rs) (x1 - o * Qabs rs)); cbn [guard bind] in H; [|discriminate].
+    destruct (Qltb 0 rs) eqn:E.
+    + apply Qltb_true in E. intros C. lra.
+    + unfold snap_edge_pos in H. destruct (Qltb 0 (- rs)) eqn:E'; cbn [guard bind] in H; [|discriminate].
+      apply Qltb_true in E'. intros C. lra.
+  - destruct (Qltb 0 rs) eqn:E.
+    + apply Qltb_true in E. intros _. split; [intros C; lra|exact I].
+    + destruct (Qeq_bool rs 0) eqn:E'; cbn [negb guard bind]; [discriminate|].
+      apply Qeq_bool_false in E'. intros _. split; [exact E'|exact I].
+Qed.
+
+Definition axis_props (x0 x1 rs : Q) (off : option Q) (tol tx : Q) (n : Z) : Prop :=
+  let a := Qabs rs in
+  let lo := axis_lo tx n rs in
+  let hi := axis_hi tx n rs in
+  (1 <= n)%Z /\ 0 < a /\
+  lo <= x0 + tol * a /\ lo <= x0 + (1 # 2) * a /\ x0 - a < lo /\
+  x1 - tol * a <= hi /\ x1 - (1 # 2) * a <= hi /\ (hi < x1 + a \/ n = 1%Z) /\
+  hi == lo + inject_Z n * a /\
+  tx == (if Qltb 0 rs then lo else hi) /\
+  match off with
+  | Some o => forall i : Z, exists k : Z, tx + inject_Z i * rs == (inject_Z k + o) * a
+  | None => tx = (if Qltb 0 rs then x0 else x1)
+  end.
+
+Lemma snap_grid_props x0 x1 rs off tol tx n :
+  snap_grid x0 x1 rs off tol = Ok (tx, n) -> x0 < x1 -> 0 <= tol ->
+  axis_props x0 x1 rs off tol tx n.
+Proof.
+  intros H Hx Ht. destruct (snap_grid_ok_inv _ _ _ _ _ _ H) as [Hr Ho].
+  pose proof (abs_pos_of_nonzero rs Hr) as Ha.
+  assert (Hx' : x0 <= x1) by lra.
+  destruct off as [o|].
+  - destruct Ho as [Ho1 Ho2].
+    destruct (snap_grid_some_spec x0 x1 rs o tol Hr Hx' Ht Ho1 Ho2)
+      as (k & n' & tx' & R & S0 & S1 & S2 & S3 & S4 & S5 & S6 & S7 & S8 & S9).
+    rewrite R in H. injection H as -> ->.
+    unfold axis_props. cbv zeta. cbv zeta in S1, S2, S3, S4, S5, S6, S7, S8, S9.
+    set (lo := axis_lo tx n rs) in *. set (hi := axis_hi tx n rs) in *.
+    split; [exact S0|]. split; [exact Ha|].
+    split; [lra|]. split; [lra|]. split; [lra|]. split; [lra|]. split; [lra|].
+    split. { destruct S9 as [S9|S9]; [left; lra|right; exact S9]. }
+    split; [lra|].
+    split. { destruct (Qltb 0 rs); rewrite S3; lra. }
+    intros i. destruct (Qltb 0 rs) eqn:E.
+    + apply Qltb_true in E. assert (Ea : Qabs rs == rs) by (apply Qabs_pos; lra).
+      exists (k + i)%Z. rewrite S3, inject_Z_plus, Ea. ring.
+    + apply Qltb_false in E. assert (Ea : Qabs rs == - rs) by (apply Qabs_neg; lra).
+      exists (k + n - i)%Z. rewrite S3. unfold Z.sub. rewrite !inject_Z_plus, inject_Z_opp, Ea. ring.
+  - destruct (snap_grid_none_spec x0 x1 rs tol Hr Hx' Ht) as (n' & R & S0 & S1 & S1' & S2).
+    rewrite R in H. injection H as H1 H2. subst tx n'. cbv zeta in S1, S1', S2.
+    unfold axis_props. cbv zeta.
+    assert (HN : 1 <= inject_Z n) by (rewrite <- inj1, <- Zle_Qle; exact S0).
+    destruct (Qltb 0 rs) eqn:E.
+    + apply Qltb_true in E. assert (Ea : Qabs rs == rs) by (apply Qabs_pos; lra).
+      destruct (axis_lo_hi x0 n rs (Qabs rs) x0 S0 Ha) as [L1 L2].
+      { left. repeat split; [exact E|exact Ea]. }
+      set (lo := axis_lo x0 n rs) in *. set (hi := axis_hi x0 n rs) in *.
+      split; [exact S0|]. split; [exact Ha|].
+      set (a := Qabs rs) in *. set (N := inject_Z n) in *.
+      assert (0 <= tol * a) by nra.
+      split; [lra|]. split; [lra|]. split; [lra|]. split; [lra|].
+      assert (a <= N * a) by nra.
+      split; [lra|].
+      split. { destruct S2 as [S2|S2]; [left; lra|right; exact S2]. }
+      split; [lra|]. split; [lra|]. reflexivity.
+    + apply Qltb_false in E.
+      assert (Hn : rs < 0) by (destruct (Qlt_le_dec rs 0); [assumption|exfalso; apply Hr; lra]).
+      assert (Ea : Qabs rs == - rs) by (apply Qabs_neg; lra).
+      destruct (axis_lo_hi x1 n rs (Qabs rs) (x1 - inject_Z n * Qabs rs) S0 Ha) as [L1 L2].
+      { right. repeat split; [exact Hn|exact Ea|ring]. }
+      set (lo := axis_lo x1 n rs) in *. set (hi := axis_hi x1 n rs) in *.
+      split; [exact S0|]. split; [exact Ha|].
+      set (a := Qabs rs) in *. set (N := inject_Z n) in *.
+      assert (0 <= tol * a) by nra.
+      assert (a <= N * a) by nra.
+      split; [lra|]. split; [lra|]. split.
+      { destruct S2 as [S2|S2]; [lra|]. subst n. unfold N in *. rewrite inj1 in *. lra. }
+      split; [lra|]. split; [lra|]. split; [left; lra|]. split; [lra|]. split; [lra|]. reflexivity.
+Qed.
+
+Lemma snap_grid_total x0 x1 rs off tol :
+  ~ rs == 0 -> x0 <= x1 -> 0 <= tol -> off_ok off -> exists tx n, snap_grid x0 x1 rs off tol = Ok (tx, n).
+Proof.
+  intros Hr Hx Ht Ho. destruct off as [o|].
+  - destruct Ho as [Ho1 Ho2].
+    destruct (snap_grid_some_spec x0 x1 rs o tol Hr Hx Ht Ho1 Ho2) as (k & n & tx & R & _). eauto.
+  - destruct (snap_grid_none_spec x0 x1 rs tol Hr Hx Ht) as (n & R & _). eauto.
 Qed.
